@@ -58,10 +58,11 @@ def _():
 def _(encoded: Bytes) -> int:
     modifies()
     ensures(result == dl(encoded))
+    ensures(result >= 0)
 
 
 @loop('mqtt.pdu.decodeLength', 0)
 def _():
-    invariant(multiplier >= 1)
+    invariant(multiplier >= 1 and value >= 0)
     invariant(value + multiplier * dl(encoded[idx:]) == dl(encoded))
     hint_back(encoded[idx - 1:][1:] == encoded[idx:])
